@@ -222,6 +222,52 @@ def gather_batch(work, verdict, stats):
     stats["gatherer_close_hung"] = gst.get("hung_scenarios", 0)
 
 
+def judge_close(work, binary, verdict, stats, scs, prop, preds, name):
+    """Run the close driver over the scenarios and judge its event log with CloseMon in TLC; violations are reported under prop."""
+    trace = work.path(name + ".ndjson")
+    jp = work.path(name + ".job.json")
+    json.dump({"scenarios": scs, "out": trace}, open(jp, "w"))
+    rc, out, wall = v.run_harness(binary, "TestClose", jp, timeout=600)
+    if rc == 3:
+        stats["watchdog"] = "the driver stopped at a scenario that hung in real time; its End event carries the verdict"
+    elif rc != 0:
+        sys.stderr.write(out[-3000:])
+        raise v.Inconclusive("close driver failed (rc %d)" % rc)
+    lines = v.read_ndjson(trace)
+    stats["scenarios"] = stats.get("scenarios", 0) + len(scs)
+    stats["events"] = stats.get("events", 0) + len(lines)
+    stats["close_points_clean"] = stats.get("close_points_clean", 0) + sum(1 for e in lines if e["ev"] == "End" and e["err"] == "")
+    mod = "MON_" + name
+    with open(work.path(mod + ".tla"), "w") as f:
+        f.write('---- MODULE %s ----\nEXTENDS CloseMon\nc_TraceFile == "%s"\nc_Check == {%s}\n====\n'
+                % (mod, trace, ", ".join('"%s"' % p for p in preds)))
+    with open(work.path(mod + ".cfg"), "w") as f:
+        f.write("CONSTANTS\n TraceFile <- c_TraceFile\n Check <- c_Check\nSPECIFICATION Spec\nINVARIANT Report\nPOSTCONDITION Done\nCHECK_DEADLOCK FALSE\n")
+    r = v.tlc(work.dir, mod, workers=1, timeout=600)
+    if r.error or not r.clean:
+        sys.stderr.write(r.out[-3000:])
+        raise v.Inconclusive("close monitor did not complete (%s)" % r.error)
+    stats["monitor_states"] = stats.get("monitor_states", 0) + r.distinct
+    stats["monitor_predicates_evaluated"] = stats.get("monitor_predicates_evaluated", 0) + r.distinct * len(preds)
+    bad = set()
+    for pred, line in r.prints("VIOL"):
+        idx = int(line) - 1
+        feat, cfg = features(pred, lines, idx)
+        bad.add(lines[idx]["sc"])
+
+        def writer(path, cfg=cfg, idx=idx, pred=pred):
+            sc = lines[idx]["sc"]
+            json.dump({"property": prop, "family": "close", "scenario": cfg, "predicate": pred,
+                       "events": [e for e in lines if e["sc"] == sc]}, open(path, "w"))
+        verdict.report(feat, writer)
+    return lines, bad
+
+
+def racing_closers(tier, seed):
+    """Two closers of one agent (Close/Close, Close/GracefulClose, from API goroutines and from handlers) at every position of a history."""
+    return [dict(sc, id=i + 1) for i, sc in enumerate(x for x in scenarios(tier, seed) if x["second"] and not x["tcp"] and not x["realMux"])]
+
+
 def c08(tier, seed):
     verdict = v.Verdict("C08", tier, seed)
     stats = {"states": 0, "transitions": 0, "traces_validated_against_impl": 0, "model_runs": [], "samples": []}
@@ -229,41 +275,7 @@ def c08(tier, seed):
         work.copy_specs("close")
         binary = v.build_harness(work)
         scs = scenarios(tier, seed)
-        trace = work.path("close.ndjson")
-        jp = work.path("job.json")
-        json.dump({"scenarios": scs, "out": trace}, open(jp, "w"))
-        rc, out, wall = v.run_harness(binary, "TestClose", jp, timeout=600)
-        if rc == 3:
-            stats["watchdog"] = "the driver stopped at a scenario that hung in real time; its End event carries the verdict"
-        elif rc != 0:
-            sys.stderr.write(out[-3000:])
-            raise v.Inconclusive("close driver failed (rc %d)" % rc)
-        lines = v.read_ndjson(trace)
-        stats["scenarios"] = len(scs)
-        stats["events"] = len(lines)
-        stats["close_points_clean"] = sum(1 for e in lines if e["ev"] == "End" and e["err"] == "")
-        with open(work.path("MON_close.tla"), "w") as f:
-            f.write('---- MODULE MON_close ----\nEXTENDS CloseMon\nc_TraceFile == "%s"\nc_Check == {%s}\n====\n'
-                    % (trace, ", ".join('"%s"' % p for p in PREDS)))
-        with open(work.path("MON_close.cfg"), "w") as f:
-            f.write("CONSTANTS\n TraceFile <- c_TraceFile\n Check <- c_Check\nSPECIFICATION Spec\nINVARIANT Report\nPOSTCONDITION Done\nCHECK_DEADLOCK FALSE\n")
-        r = v.tlc(work.dir, "MON_close", workers=1, timeout=600)
-        if r.error or not r.clean:
-            sys.stderr.write(r.out[-3000:])
-            raise v.Inconclusive("close monitor did not complete (%s)" % r.error)
-        stats["monitor_states"] = r.distinct
-        stats["monitor_predicates_evaluated"] = r.distinct * len(PREDS)
-        bad = set()
-        for pred, line in r.prints("VIOL"):
-            idx = int(line) - 1
-            feat, cfg = features(pred, lines, idx)
-            bad.add(lines[idx]["sc"])
-
-            def writer(path, cfg=cfg, idx=idx):
-                sc = lines[idx]["sc"]
-                json.dump({"property": "C08", "family": "close", "scenario": cfg, "predicate": pred,
-                           "events": [e for e in lines if e["sc"] == sc]}, open(path, "w"))
-            verdict.report(feat, writer)
+        lines, bad = judge_close(work, binary, verdict, stats, scs, "C08", PREDS, "close")
         stats["scenarios_judged_clean_by_monitor"] = len(scs) - len(bad)
         trace_validate(work, lines, stats)
         stats["samples"] = [{"scenario": scs[0], "events": [{k: e[k] for k in ("ev", "who", "err", "st")} for e in lines if e["sc"] == scs[0]["id"]][:40]}]
